@@ -9,6 +9,7 @@ import (
 	"github.com/lugu/qiloop/bus/net"
 	secret "github.com/lugu/qiloop/bus/session/token"
 	"github.com/lugu/qiloop/type/value"
+	"github.com/lugu/qiloop/vhook"
 )
 
 type client struct {
@@ -197,14 +198,17 @@ func (c *client) State(signal string, add int) int {
 	previous, ok := c.state[signal]
 	if !ok && add != 0 {
 		c.state[signal] = add
+		vhook.Emit("client", c, "state", "key", signal, "add", add, "val", add)
 		return add
 	}
 	next := previous + add
 	if next == 0 {
 		delete(c.state, signal)
+		vhook.Emit("client", c, "state", "key", signal, "add", add, "val", 0)
 		return 0
 	}
 	c.state[signal] = next
+	vhook.Emit("client", c, "state", "key", signal, "add", add, "val", next)
 	return next
 }
 
